@@ -57,7 +57,7 @@ JOBS.append({
     "name": "hkdf.expand.sm", "files": ["harness/h_hkdf_sm.c", HKDF, "stubs/hmac_frame.c", "stubs/memcpy_ghost.c", "stubs/memset_ghost.c"],
     "functions": [EX], "defs": ["TJV_HKDF"],
     "loops": [{
-        "fn": EX, "idx": 0, "line": r"while \(outlen > 0\)",
+        "fn": EX, "idx": 0, "line": r"outlen > 0",
         "assigns": "out, outlen, len, __CPROVER_object_whole(&hmac), __CPROVER_object_whole(state), __CPROVER_object_whole(tjv_out0), tjv_fill_base, tjv_fill_len, tjv_hm_finals_at_init, tjv_hkdf_n, tjv_hm_inits, tjv_hm_finals, tjv_hm_reinits, tjv_hm_upd, tjv_hm_open, tjv_hm_last1, tjv_hm_have1, tjv_hm_last4, tjv_hm_have4",
         "inv": ("outlen <= LE(outlen) && out == LE(out) + (LE(outlen) - outlen) && __CPROVER_same_object(out, tjv_out0) && pstate->posn >= 1 && pstate->posn <= 32 && (outlen > 0 ==> pstate->posn == 32) && "
                 "SERVED == SERVED0 + (long)(LE(outlen) - outlen) && "
@@ -111,7 +111,7 @@ JOBS += split_grid({
     "assumes": ["hash API replaced by its contract (stubs/hash_abs.c), discharged by C10/C11"],
 }, 8)
 PB = "tinyjambu_pbkdf2"
-INNER = {"fn": "tinyjambu_pbkdf2_f", "idx": 0, "line": r"while \(count > 2\)",
+INNER = {"fn": "tinyjambu_pbkdf2_f", "idx": 0, "line": r"count > 2",
          "assigns": "count, __CPROVER_object_whole(T), __CPROVER_object_whole(U), __CPROVER_object_whole(state), tjv_hm_reinits, tjv_hm_finals, tjv_hm_upd, tjv_hm_open, tjv_acc, tjv_hm_last_out",
          "inv": "count >= 2 && count <= LE(count) && tjv_hm_finals - tjv_hm_finals_at_init == 2 + (LE(count) - count) && LE(count) == tjv_count && tjv_hm_last_out == U && T[tjv_gg] == tjv_acc".replace("LE(", LE + "("),
          "dec": "count",
@@ -119,7 +119,7 @@ INNER = {"fn": "tinyjambu_pbkdf2_f", "idx": 0, "line": r"while \(count > 2\)",
                  "tjv_hm_reinits": "tjv_hm_reinits",
                  "tjv_hm_finals": "tjv_hm_finals", "tjv_hm_upd": "tjv_hm_upd", "tjv_hm_open": "tjv_hm_open",
                  "tjv_hm_finals_at_init": "tjv_hm_finals_at_init", "tjv_count": "tjv_count", "tjv_acc": "tjv_acc", "tjv_gg": "tjv_gg", "tjv_hm_last_out": "tjv_hm_last_out"}}
-OUTER = {"fn": PB, "idx": 0, "line": r"while \(outlen > 0\)",
+OUTER = {"fn": PB, "idx": 0, "line": r"outlen > 0",
          "assigns": "out, outlen, blocknum, __CPROVER_object_whole(&state), __CPROVER_object_whole(U), __CPROVER_object_whole(tjv_out0), tjv_hm_inits, tjv_hm_finals, tjv_hm_reinits, tjv_hm_upd, tjv_hm_open, tjv_hm_finals_at_init, tjv_hm_last4, tjv_hm_have4, tjv_hm_last1, tjv_hm_have1, tjv_acc, tjv_acc_prev, tjv_hm_last_out",
          "inv": ("blocknum >= 1 && blocknum - 1 <= LE(outlen) / 32 && outlen <= LE(outlen) && LE(outlen) - outlen == 32 * (blocknum - 1) && out == LE(out) + (LE(outlen) - outlen) && "
                  "__CPROVER_same_object(out, tjv_out0) && tjv_hm_inits == blocknum - 1 && count == tjv_count").replace("LE(", LE + "("),
@@ -134,7 +134,7 @@ SHAPE = {"files": ["harness/h_pbkdf2_shape.c", PBKDF2, "stubs/hmac_frame.c", "st
          "assumes": ["HMAC API replaced by frame-only contract stubs (stubs/hmac_frame.c): values arbitrary, protocol counted and checked"]}
 for cnt in (0, 1):
     JOBS.append(dict(SHAPE, name="pbkdf2.shape.blocks.c%d" % cnt, defs=["TJV_PBKDF2", "TJV_BLOCKS=%d" % (cnt + 1), "TJV_GHOST_OUT"], loops=[OUTER],
-                     pre_unwind=[("tinyjambu_pbkdf2_f", 0, r"while \(count > 2\)", 1)],
+                     pre_unwind=[("tinyjambu_pbkdf2_f", 0, r"count > 2", 1)],
                      unbounded="outlen <= 2^40 (loop contract on the block loop: block numbering INT32BE(i) at every block, ceil(outlen/32) blocks, exactly outlen bytes), count = %d" % cnt))
 JOBS.append(dict(SHAPE, name="pbkdf2.shape.chain", defs=["TJV_PBKDF2", "TJV_OL=40"], loops=[INNER], unwind=66,
                  unbounded="every count (all of unsigned long): loop contract on the PRF-chain loop (exactly max(count,1) PRF evaluations per block); outlen = 40"))
